@@ -274,11 +274,20 @@ def build_family(floc):
 SHAPES = ["leaf", "tupleT", "tupleB", "tuple1", "tuple2", "tupleV", "fs", "fs1", "union2", "gen0", "gen1", "gen2"]
 
 
+# depth-2 type terms (thorough tier): an outer shape whose first argument is itself a depth-1 term, written outer(inner)
+DEEP_SHAPES = ["tuple1(tuple1)", "tuple1(union2)", "tuple1(fs1)", "tuple1(tupleV)", "tupleV(tuple1)", "tupleV(union2)", "fs1(tuple1)", "fs1(union2)", "union2(tuple1)", "union2(fs1)", "gen1(tuple1)", "gen1(union2)", "tuple2(tuple1)"]
+
+
 def mk(p, shape, leaves, depth=1):
+    inner = None
+    if "(" in shape:
+        shape, inner = shape[:-1].split("(", 1)
+    first = [inner]
+
     def leaf():
-        if depth > 1:
-            sub = p_choice_shape(p, leaves, depth - 1)
-            return sub
+        if first[0] is not None:
+            sub, first[0] = first[0], None
+            return mk(p, sub, leaves)
         i = p.fresh_int("t")
         p.assume(i >= 0)
         l = Leaf(i)
@@ -349,7 +358,7 @@ class _Typing(Contract):
     max_paths = 20000
     drops = "decorators (lru_cache; register_subclasscheck re-read into the dispatch table), docstrings"
     assumptions = (
-        "C16 proof: plain leaf classes are unrelated to tuple/frozenset/object; typing_wrap types outside the grammar; type terms of nesting depth <= 1, arity <= 2 (leaves symbolic: Any or any class, arbitrary preorder hierarchy)",
+        "C16 proof: plain leaf classes are unrelated to tuple/frozenset/object; typing_wrap types outside the grammar; type terms of nesting depth <= 1 (quick) / <= 2 on the listed nested shapes (thorough), arity <= 2 (leaves symbolic: Any or any class, arbitrary preorder hierarchy)",
     )
     ALL_MUTANTS = (
         ("bare Tuple below every fixed Tuple[Any] (the pinned-tree defect)", "return cls_args[0] is typing.Any and cls_args[-1] is Ellipsis", "return cls_args[0] is typing.Any"),
@@ -373,7 +382,7 @@ class DeepIssubclassReflexive(_Typing):
     mutants = (_Typing.ALL_MUTANTS[2], ("tuple arity ignored", "return len(cls_args) == len(subcls_args) and all(", "return len(cls_args) != len(subcls_args) and all("))
 
     def structures(self, tier):
-        for s in SHAPES:
+        for s in SHAPES + (DEEP_SHAPES if tier != "quick" else []):
             yield s, s
 
     def build(self, p, shape):
@@ -384,9 +393,21 @@ class DeepIssubclassReflexive(_Typing):
 
     def ensures(self, ctx, result):
         t = ctx.t
-        if isinstance(t, TUnion):
-            has_any = Or(*[a.id == 0 for a in t.args])
-            # known finding C16/union-with-any: Any <= Union[Any, X] is rejected, so such a union is not below itself
+        conds = []
+
+        def unions(x):
+            if isinstance(x, TUnion):
+                conds.extend(a.id == 0 for a in x.args if isinstance(a, Leaf))
+            for a in getattr(x, "args", ()) or ():
+                unions(a)
+            if isinstance(x, TFS) and x.arg is not None:
+                unions(x.arg)
+
+        unions(t)
+        if conds:
+            has_any = Or(*conds)
+            # known finding C16/union-with-any: Any <= Union[Any, X] is rejected, so such a union (and every term that
+            # contains one) is not below itself
             return [("reflexive[union without Any member]", Implies(Not(has_any), result)), ("reflexive[union with Any member]", Implies(has_any, result))]
         return [("reflexive", result)]
 
@@ -401,10 +422,23 @@ class DeepIssubclassTransitive(_Typing):
     def structures(self, tier):
         for a, b, c in itertools.product(SHAPES, repeat=3):
             yield "%s<=%s<=%s" % (a, b, c), (a, b, c)
+        if tier != "quick":
+            # depth 2: every triple with one or two nested terms among terms of the same outer constructor family (the
+            # only triples on which the nested arguments are compared), plus nested-vs-flat triples
+            fam = lambda sh: sh.split("(")[0]  # noqa: E731
+            pool = SHAPES + DEEP_SHAPES
+            for a, b, c in itertools.product(pool, repeat=3):
+                if not any("(" in x for x in (a, b, c)):
+                    continue
+                outs = {fam(a), fam(b), fam(c)}
+                if len(outs - {"union2", "tupleV", "tuple1", "tupleT", "leaf"}) > 1 and len(outs) > 2:
+                    continue
+                yield "%s<=%s<=%s" % (a, b, c), (a, b, c)
 
     def allow_vacuous(self, st):
         # issubclass(<typing alias>, <class>) raises TypeError natively: the relation is undefined on these pairs
-        return st[0] in ("tupleT", "tuple1", "tuple2", "tupleV", "fs", "fs1") and st[1] in ("gen0", "gen1", "gen2")
+        fam = lambda sh: sh.split("(")[0]  # noqa: E731
+        return any("(" in x for x in st) or (fam(st[0]) in ("tupleT", "tuple1", "tuple2", "tupleV", "fs", "fs1") and fam(st[1]) in ("gen0", "gen1", "gen2"))
 
     MUTANT_SHAPES = {
         "bare Tuple below every fixed Tuple[Any] (the pinned-tree defect)": ("tupleT", "tupleB", "tuple1", "tuple2", "tupleV", "leaf"),
